@@ -6,8 +6,12 @@
      semantic/resolver/functions.rs   apply_args_to_closure (unknown named argument), fold_function (too many arguments),
                                       resolve_function_args (relational parameters)
      semantic/resolver/expr.rs        what an Ident expression becomes, by kind of declaration
-     semantic/lowering.rs             lower_expr: an Ident without target id is passed to SQL as an s-string;
+     semantic/lowering.rs             lower_expr: an Ident without target id that names a module, or whose type is a relation
+                                      (outside the interpolated items of an s-string), is an error (repair a131b2a); any other
+                                      Ident without target id is still passed to SQL as an s-string;
                                       lower_table_ref: anything but an ident / pipeline / s-string / literal is not a relation
+     semantic/resolver/names.rs       resolve_ident: a name is tried relative to the enclosing modules first -- in value
+                                      positions and (repair d92afac) in relation positions as well
    A scope is the ordered list of namespaces the root module redirects to (this, that, _param, std) plus the
    root's own names.  `this` / `that` are frames: inputs (name, known columns, has-wildcard) plus columns declared
    directly (derived columns).  [lookup] returns the candidate SET as a list; resolution never depends on its order
@@ -113,7 +117,10 @@ Definition lookup (sc : scope) (id : ident) : list cand :=
       (* lookup_in(root, name) *)
       map CRoot (assoc_all (snd id) (s_root sc))
       ++ (if leqb (snd id) s_this_name then [CFrame false] else [])
-      ++ (if leqb (snd id) s_that_name then (match s_that sc with Some _ => [CFrame true] | None => [] end) else [])
+      (* `that` is a name of the root module while the arguments of any transform are resolved: the joined frame inside a
+         join condition, otherwise the EMPTY module resolve_function_args shadows it with (every std transform has a
+         relation-typed parameter) *)
+      ++ (if leqb (snd id) s_that_name then [CFrame true] else [])
       (* redirects: this, that, _param, std *)
       ++ frame_lookup false (s_this sc) id
       ++ that_lookup sc id
@@ -195,28 +202,38 @@ Inductive outcome :=
 | OInferredColumn (that : bool) (input : nat)             (* ColumnRef: a column inferred into input's table *)
 | OTuple                                                   (* this / that / an input: all its columns *)
 | OValue                                                   (* a `let` constant or parameter: substituted *)
-| OPassthrough                                             (* Ident without target id -> s-string: the bare name reaches SQL *)
+| OPassthrough                                             (* Ident without target id -> s-string: the name reaches SQL *)
 | OErr (e : err).
 
-Definition of_kind (k : nkind) : outcome :=
+(* [interp] = the reference is an interpolated item of an s-string (lower_interpolations): the one place where a
+   relation variable may be spliced in by name *)
+Definition of_kind (interp : bool) (k : nkind) : outcome :=
   match k with
   | NFunc => OErr ENotAValue       (* "unexpected `func ..`" *)
   | NType => OErr ENotAValue       (* "expected a value, found a type" *)
   | NValue => OValue
-  | NModule => OPassthrough        (* DeclKind::Module: `_ => Ident(fq)` without target id *)
-  | NTable => OPassthrough         (* DeclKind::TableDecl: a relation in scalar position, lowered as unresolved ident *)
+  | NModule => OErr ENotAValue     (* lower_expr: "expected a value, but found module `m`" (a131b2a) *)
+  | NTable => if interp then OPassthrough     (* s"... {tab} ...": the table name is spliced in, by design *)
+              else OErr ENotAValue            (* "table variable cannot be used as a scalar value" (a131b2a) *)
   end.
 
-Definition lower_ref (sc : scope) (id : ident) : outcome :=
+Definition lower_ref_in (interp : bool) (sc : scope) (id : ident) : outcome :=
   match resolve sc id with
   | RBound (CDirect t p) => OColumn t None p
   | RBound (CInput t i p) => OColumn t (Some i) p
-  | RBound (CSelf _ _) | RBound (CFrame _) => OTuple
-  | RBound (CRoot k) | RBound (CStd k) | RBound (CParam k) => of_kind k
+  | RBound (CSelf _ _) | RBound (CFrame false) => OTuple
+  | RBound (CFrame true) =>
+      (* bare `that`: the joined frame inside a join condition; anywhere else the empty shadow module, which is gone
+         from the root module by the time lower_expr looks the ident up -- neither a module nor relation-typed, so the
+         unresolved-ident fallback still passes the bare name `that` to SQL (finding C10-F2) *)
+      match s_that sc with Some _ => OTuple | None => OPassthrough end
+  | RBound (CRoot k) | RBound (CStd k) | RBound (CParam k) => of_kind interp k
   | RInferred (IInput t i) => OInferredColumn t i
-  | RInferred ITable => OPassthrough
+  | RInferred ITable => if interp then OPassthrough else OErr ENotAValue   (* default_db.x: a relation, see NTable *)
   | RErr e => OErr e
   end.
+
+Definition lower_ref (sc : scope) (id : ident) : outcome := lower_ref_in false sc id.
 
 (* ---- properties of a scope used by the theorems ---- *)
 
@@ -239,7 +256,8 @@ Definition names_other (sc : scope) (n : str) : bool :=
   || match s_that sc with Some f => existsb (fun x => leqb n (in_name x)) (f_inputs f) | None => false end
   || leqb n s_this_name || leqb n s_that_name.
 
-(* the bare name denotes a module or a relation variable: what the unresolved-ident fallback lets through (finding C10-F1) *)
+(* the bare name denotes a module or a relation variable: what the unresolved-ident fallback let through before a131b2a
+   (finding C10-F1, fixed) and what is an error now *)
 Definition is_modtab (k : nkind) : bool := match k with NModule | NTable => true | _ => false end.
 Definition names_module_or_table (sc : scope) (n : str) : bool :=
   existsb is_modtab (assoc_all n (s_root sc))
@@ -308,4 +326,95 @@ Definition apply_fn (f : fsig) (args : list akind) (named : list str) : applied 
            | Some e => AErr e
            | None => Applied
            end
+  end.
+
+(* ---- declarations inside user modules: resolution relative to the enclosing modules (resolver/names.rs resolve_ident) ----
+   A declaration inside `module m { module n { .. } }` is resolved with current_module_path = [m; n].  The path is
+   prepended to the identifier and the result looked up in the root module; on failure the FIRST part is dropped
+   (`ident.pop_front()`) and the lookup repeated, once per part of the path; at last the identifier is tried as written.
+   In value positions every attempt is a full resolve_ident_core (0 / 1 / many + inference) and the first success wins;
+   in relation positions (a default namespace applies: table references) an attempt succeeds when the lookup finds
+   exactly one declaration -- added by d92afac; before it a table reference ignored the enclosing modules, so a sibling
+   `let` constant or function named in `from` / `join` silently became a database table of that name.
+   NB: dropping the first part turns m.n.x into n.x, not into the parent's m.x -- for paths of length >= 2 the
+   declarations of proper ancestors are NOT found (finding C10-F3); the model mirrors the code. *)
+Record mscope := mkMScope {
+  ms_scope : scope;                       (* root names, frames, parameters, std *)
+  ms_cur : list str;                      (* current_module_path *)
+  ms_mods : list (list str * nkind) }.    (* declarations inside user modules, by full path: ["m"; "k"], ["m"; "n"; "r"] ... *)
+
+(* Module::lookup of the root module, user modules included *)
+Definition mlookup (mods : list (list str * nkind)) (sc : scope) (id : ident) : list cand :=
+  lookup sc id
+  ++ match fst id with
+     | [] => []
+     | _ :: _ => map CRoot (std_all (fst id ++ [snd id]) mods)
+     end.
+
+Definition arg_kind_of (c : cand) : akind :=
+  match c with
+  | CRoot NTable | CStd NTable | CParam NTable => ARel
+  | CRoot NFunc | CStd NFunc | CParam NFunc => AFunc
+  | _ => AScalar
+  end.
+
+(* the enclosing-modules step of a table reference: Some c = `found` *)
+Fixpoint rel_enclosing (mods : list (list str * nkind)) (sc : scope) (cur : list str) (id : ident) : option cand :=
+  match cur with
+  | [] => None
+  | _ :: cur' =>
+      match mlookup mods sc (cur ++ fst id, snd id) with
+      | [c] => Some c
+      | _ => rel_enclosing mods sc cur' id
+      end
+  end.
+
+(* what a name is in a relation position of a declaration inside modules; None = ambiguous *)
+Definition rel_arg_kind_m (ms : mscope) (id : ident) : option akind :=
+  let sc := shadowed (ms_scope ms) in
+  match rel_enclosing (ms_mods ms) sc (ms_cur ms) id with
+  | Some c => Some (arg_kind_of c)
+  | None =>
+      match mlookup (ms_mods ms) sc id with      (* resolve_ident_core(ident, Some(default_db)) *)
+      | [] => Some ARel
+      | [c] => Some (arg_kind_of c)
+      | _ :: _ :: _ => None
+      end
+  end.
+
+(* the same reference before d92afac: the enclosing modules were not consulted *)
+Definition rel_arg_kind_m_before_d92afac (ms : mscope) (id : ident) : option akind :=
+  match mlookup (ms_mods ms) (shadowed (ms_scope ms)) id with
+  | [] => Some ARel
+  | [c] => Some (arg_kind_of c)
+  | _ :: _ :: _ => None
+  end.
+
+(* value positions *)
+Definition resolve_core_m (mods : list (list str * nkind)) (sc : scope) (id : ident) : resolved :=
+  resolve_from (mlookup mods sc id) (infer_candidates sc id).
+
+Fixpoint resolve_enclosing (mods : list (list str * nkind)) (sc : scope) (cur : list str) (id : ident) : resolved :=
+  match cur with
+  | [] => resolve_core_m mods sc id
+  | _ :: cur' =>
+      match resolve_core_m mods sc (cur ++ fst id, snd id) with
+      | RErr _ => resolve_enclosing mods sc cur' id
+      | r => r
+      end
+  end.
+
+Definition resolve_m (ms : mscope) (id : ident) : resolved :=
+  resolve_enclosing (ms_mods ms) (ms_scope ms) (ms_cur ms) id.
+
+Definition lower_ref_m (ms : mscope) (id : ident) : outcome :=
+  match resolve_m ms id with
+  | RBound (CDirect t p) => OColumn t None p
+  | RBound (CInput t i p) => OColumn t (Some i) p
+  | RBound (CSelf _ _) | RBound (CFrame false) => OTuple
+  | RBound (CFrame true) => match s_that (ms_scope ms) with Some _ => OTuple | None => OPassthrough end
+  | RBound (CRoot k) | RBound (CStd k) | RBound (CParam k) => of_kind false k
+  | RInferred (IInput t i) => OInferredColumn t i
+  | RInferred ITable => OErr ENotAValue
+  | RErr e => OErr e
   end.
